@@ -126,6 +126,12 @@ def palette(truth, polys):
         'far': box(maxx + 100, maxy + 100, maxx + 101, maxy + 101),
         'along-edge': LineString([ring[0], ring[1]]),
     }
+    if shared is not None:
+        # a line of slope 5/4 exactly through a shared vertex, long enough to leave the model on both sides
+        reach = 4.0 * max(maxx - minx, maxy - miny)
+        geoms['slanted-through-corner'] = LineString([(shared.x - 0.8 * reach, shared.y - reach), (shared.x + 0.8 * reach, shared.y + reach)])
+        geoms['triangle-through-corner'] = Polygon([(shared.x - 0.8 * reach, shared.y - reach), (shared.x + 0.8 * reach, shared.y + reach),
+                                                    (shared.x + 0.8 * reach, shared.y - reach)])
     shape = truth.kinds['face']['shape']
     if len(shape) == 2:
         row = [p for n, p in valid if n < shape[1]]
